@@ -13,6 +13,7 @@ import (
 	"fmt"
 	"os"
 	"sort"
+	"time"
 )
 
 var props = map[string]func(*Run){}
@@ -43,6 +44,7 @@ func main() {
 	}
 	r := NewRun(prop, *tier, *seed, *out)
 	rng = NewRng(mix(*seed, strHash(prop)))
+	watch(r, 60*time.Second)
 	f(r)
 	r.Finish()
 	fmt.Printf("%s: evaluations=%d distinct=%d model_lines=%d direct_violations=%d\n", prop, r.Evaluations, len(r.Distinct), r.lines, len(r.Violations))
